@@ -69,7 +69,7 @@ Judge(k) ==
       S == Fam(o, "S")
   IN (IF ~NoPanic(o) THEN <<[i |-> k, kind |-> "panic", fam |-> "-", gs |-> Summary(SelectSeq(o, LAMBDA g : g.r = 2))]>> ELSE <<>>)
      \o (IF ~AgreeSingle(J) THEN <<[i |-> k, kind |-> "disagree", fam |-> "J", gs |-> Summary(J)]>> ELSE <<>>)
-     \o (IF ~AgreeSingle(S) THEN <<[i |-> k, kind |-> "disagree", fam |-> "S", gs |-> Summary(S)]>> ELSE <<>>)
+     \o (IF ~AgreeSingle(S) THEN <<[i |-> k, kind |-> "disagree", fam |-> "S", gs |-> Summary(S), sv |-> StrictValid(Trace[k].b)]>> ELSE <<>>)
      \o (IF AgreeSingle(J) /\ AgreeSingle(S) /\ J # <<>> /\ S # <<>> /\ StrictValid(Trace[k].b) /\ ~AgreeSingle(<<J[1], S[1]>>)
          THEN <<[i |-> k, kind |-> "disagree", fam |-> "J~S", gs |-> Summary(<<J[1], S[1]>>)]>> ELSE <<>>)
      \o (IF ~AgreeMulti(Fam(m, "J")) THEN <<[i |-> k, kind |-> "disagree-multi", fam |-> "J", gs |-> SummaryM(Fam(m, "J"))]>> ELSE <<>>)
